@@ -1,3 +1,5 @@
 pub mod corpus;
 pub mod mutate;
 pub mod expr;
+pub mod isa;
+pub mod program;
